@@ -2,10 +2,15 @@
 (***************************************************************************)
 (* Trace validation of the real iterators (C14).  Each record is one run   *)
 (* of a word of next/next_back calls on one iterator family over one list  *)
-(* of a cache in a state reached by `path`.  The oracle is the             *)
-(* SPECIFICATION's list: TLC recomputes the cache state by folding the     *)
-(* policy specification over `path`, then compares everything the real     *)
-(* iterator did with Iter!Run on that list.                                *)
+(* of a cache in a state reached by `path`.  The list the iterators are    *)
+(* judged against is the WITNESS: the content of that list read without    *)
+(* any iterator (hook walk of the next pointers + peek), so that C14 is    *)
+(* about the iterators only.  TLC also recomputes the SPECIFICATION's list *)
+(* by folding the policy specification over `path`; where the two differ   *)
+(* the policy is off (C06/C08/C09 report that), the record is counted as   *)
+(* POLICY-DRIFT and the iterators are still judged against what the list   *)
+(* really holds.  Everything the real iterator did is compared with        *)
+(* Iter!Run on that list.                                                   *)
 (*   kind "raw": P1 = capacity;  "2q": P1 = size, P2 = quota, P3 = ghost;  *)
 (*   "arc": P1 = size.                                                      *)
 (***************************************************************************)
@@ -32,9 +37,10 @@ ToPairs2(seqs) == [i \in 1..Len(seqs) |-> ToPairs(seqs[i])]
 Word(w) == [i \in 1..Len(w) |-> w[i]]
 Delta == 100
 Check(r) ==
-  LET list == ListOf(r.path, r.list)
+  LET list == [i \in 1..Len(r.witness) |-> Ent(r.witness[i][1], r.witness[i][2])]
       e == Run(list, r.kind, r.proj, Word(r.word))
-  IN /\ ~r.panic
+  IN /\ (IF list # ListOf(r.path, r.list) THEN PrintT(<<"POLICY-DRIFT", r.list, ToJson(r.path)>>) ELSE TRUE)
+     /\ ~r.panic
      /\ ToPairs(r.yields) = e.yields
      /\ r.hints = e.hints                       \* size_hint (lower = upper) and ExactSizeIterator::len, after every step
      /\ r.count = e.count                       \* count() of what is left
